@@ -464,13 +464,22 @@ C01_CURATED = [
 
 
 class C01(Spec):
-    level_text = ('Second sentence full, first sentence partial. Proved: C01_callback_irrelevant (for every fuel, source, option values and '
-                  'session, rendering with and without a callback gives the same HTML or the same failure, the same diagnostic texts, and '
-                  'sessions equal in everything but the callback flag -- the relational theorem rel_doc_render over the whole block layer), '
-                  'C01_callback_irrelevant_history (the same along histories), C01_plain_total (one-line documents over the safe alphabet provably return, with no diagnostic), C01_update_total (option handling never fails for any option '
-                  'values), C01_api_reduces_to_document, C01_invariants. Not proved: absence of Raise for every input -- the unchanged code '
-                  'does raise (6 known findings); the raise sites of the model are explicit (type exn) and model/implementation are compared on '
-                  'ok / raise kind / timeout. Interpreter recursion depth is outside the model and is observed on the implementation only.')
+    level_text = ('Full over the model, up to its four named failure outcomes. Second sentence: C01_callback_irrelevant (for every fuel, '
+                  'source, option values and session, rendering with and without a callback gives the same HTML or the same failure, the same '
+                  'diagnostic texts, and sessions equal in everything but the callback flag -- the relational theorem rel_doc_render over the '
+                  'whole block layer), C01_callback_irrelevant_history. First sentence: C01_raises_only with C01_reachable_invariant -- from every '
+                  'session reachable through the API (option text free of U+0000..2), for every source and fuel, a failure of render is one of: '
+                  'ExIntTooLong (parameter number of more than 4300 digits: known finding), ExPopEmpty (list-id stack of a container attached '
+                  'to a list item: known finding), ExUnsupported (author pattern outside the modelled regex subset: such cases are skipped by '
+                  'the comparison), ExFilter (the indented / macro-definition content filter pattern not matching what its block pattern '
+                  'matched: never observed, not excluded by proof). Proved unreachable: re.error, a non-participating group at every group '
+                  'access, an index into an empty match (no line / list / block pattern of the generated tables matches the empty string or a '
+                  'lone backslash; the paragraph pattern takes at least one character), an empty reader wherever the cursor is indexed, the '
+                  'quote-definition assert, int() of a malformed parameter number, an empty parameter list, the placeholder pop '
+                  '(C01_spans_never_raises, C01_inline_no_underflow, C01_reachable_env_ok). Also C01_plain_total, C01_update_total, '
+                  'C01_api_reduces_to_document, C01_invariants. Outside the model: interpreter recursion depth (the model has Fuel where Python '
+                  'has RecursionError: 4 known findings), observed on the implementation only; model/implementation are compared on ok / raise '
+                  'kind / timeout.')
     rule = ('token-soup histories with legal and illegal option values, degenerate quote/replacement/block definitions, repeated '
             'elements; each also run without callback; non-trivial = tag other than <p>, diagnostic or raise')
     state_keys = []
@@ -939,13 +948,17 @@ class C15(Spec):
 # C16 -- line endings and reserved control characters
 
 class C16(Spec):
-    level_text = ('Full for the line-ending half: C16_reader_spec (the reader splits on the *generated* pattern exactly like the reference '
+    level_text = ('Full over the model. Line endings: C16_reader_spec (the reader splits on the *generated* pattern exactly like the reference '
                   'splitter: the matcher is evaluated symbolically on that pattern), C16_lines (decode after encode: for every choice of LF / CR LF '
                   '/ CR per line the lines come back, by induction over the line list; the one inherently ambiguous combination -- a CR terminator '
                   'directly followed by an empty LF-terminated line -- is excluded), C16_same_lines and C16_render_recode (sources with the same '
                   'lines render identically from every session, option set and fuel). Reserved characters: C16_blanked, C16_blank_spec, '
-                  'C16_reader_reserved_free (they are blanks for the renderer). That none of them appears in the *output* (placeholder protocol) '
-                  'is decided by the oracle and correspondence, not proved.')
+                  'C16_reader_reserved_free (they are blanks for the renderer); C16_placeholders_resolved (the placeholder protocol of '
+                  'spans.render: every saved fragment restored exactly once, in order, the pop never underflows, nothing reserved left), '
+                  'C16_quote_match_shape, C16_output_reserved_free / C16_render_reserved_free (along every history of render calls whose '
+                  'htmlReplacement option text, when given, is free of them, no output contains U+0000..U+0002: Hoare triples over every '
+                  'block-layer function, Proofs/Taint.v). What the model cannot show -- a render aborted by an exception leaving saved '
+                  'fragments behind -- is searched on the implementation (aborted histories).')
     rule = ('token-soup documents re-encoded with random per-line terminators, and with reserved characters inserted at random positions; '
             'outputs must coincide and contain none of U+0000..U+0002; non-trivial as usual')
     state_keys = []
